@@ -39,6 +39,7 @@ class Scalar (K : Type) where
   pow : K → K → K
   floor : K → K
   ceil : K → K
+  isnan : K → Bool
   pi : K
   ofInt : Int → K
   toInt : K → Int              -- C-style truncation (Warp `int(x)`)
@@ -94,6 +95,7 @@ instance : Scalar Float where
   pow := Float.pow
   floor := Float.floor
   ceil := Float.ceil
+  isnan := Float.isNaN
   pi := 3.14159265358979323846
   ofInt i := Float.ofInt i
   toInt := floatToInt
@@ -127,6 +129,7 @@ instance : Scalar Float32 where
   pow := Float32.pow
   floor := Float32.floor
   ceil := Float32.ceil
+  isnan := Float32.isNaN
   pi := (3.14159265358979323846 : Float).toFloat32
   ofInt i := (Float.ofInt i).toFloat32
   toInt := float32ToInt
